@@ -20,6 +20,22 @@ type flight struct {
 	block int32 // index of the block being executed, -1 before the first
 }
 
+// maxExecNs is the longest completed execution of this process (reported in the evidence, so that
+// the watchdog's limits can be compared with what executions really take).
+var maxExecNs int64
+
+func noteExec(d time.Duration) {
+	for {
+		old := atomic.LoadInt64(&maxExecNs)
+		if int64(d) <= old || atomic.CompareAndSwapInt64(&maxExecNs, old, int64(d)) {
+			return
+		}
+	}
+}
+
+// MaxExecution returns the longest completed execution so far.
+func MaxExecution() time.Duration { return time.Duration(atomic.LoadInt64(&maxExecNs)) }
+
 // Suspect is an execution that has been running for a long time.
 type Suspect struct {
 	World   string        `json:"world"`
